@@ -135,7 +135,7 @@ func (NetH) Gen(prop string, seed uint64, tier string) *hx.Case {
 			}
 			for round := 0; round < 1+r.Intn(3); round++ {
 				noise()
-				switch r.Pick(30, 15, 20, 15, 20, 8) {
+				switch r.Pick(30, 15, 20, 15, 20, 8, 8) {
 				case 5: // two relayed transactions share a short id under the announcement's key
 					k := []string{"kit-tx1", "kit-tx2"}
 					if r.Chance(0.5) {
@@ -177,6 +177,10 @@ func (NetH) Gen(prop string, seed uint64, tier string) *hx.Case {
 					}
 				case 2: // a malformed announcement
 					add("cmpctblock", []string{"cb-idx-overflow", "cb-idx-overflow", "cb-prefilled-trunc", "cb-neg-witness", "cb-dup-shortid", "cb-count-mismatch", "cb-full", "cb-size-loop", "cb-rule", "cb-rule"}[r.Intn(10)])
+				case 6: // the header of a sibling of the tip (a dead side branch), then questions that name it
+					add("headers", "hdr-side")
+					noise()
+					add([]string{"getheaders", "getheaders", "getblocks", "getdata"}[r.Intn(4)], "ask-side")
 				case 3: // the peer asks for transactions of a block the node has
 					add("getblocktxn", []string{"gbt-valid", "gbt-range", "gbt-huge", "gbt-wrap", "gbt-many"}[r.Intn(5)])
 				}
@@ -326,6 +330,7 @@ type netRun struct {
 	plans   map[int]*cbPlan // per peer: the block of the compact-block conversation in progress
 	kit     *sidKit
 	kitBlk  *ledger.Block
+	side    [][32]byte // headers of dead side branches sent so far
 	cver    map[int]int     // per peer: compact-block version announced with sendcmpct
 }
 
@@ -631,6 +636,41 @@ func (n *netRun) convPayload(m *NetMsg, r *hx.Rng) (pl []byte, ok bool) {
 		w.Write(vint(0))
 		w.Write(n.kitBlk.Txs[0].Bytes(true))
 		n.out.Probe("cmpctblock_with_colliding_short_ids", 1)
+		return w.Bytes(), true
+	case "hdr-side":
+		// a block on the tip's parent: a sibling of the tip, known by its header only and never extended
+		par := n.model.Parent
+		if par == nil || !par.Valid() {
+			return nil, false
+		}
+		n.m.R = r
+		b, ok := n.m.Build(par, ledger.BlockOpts{NTx: 0})
+		if !ok || n.l.Add(b, 1<<40) == nil {
+			return nil, false
+		}
+		n.side = append(n.side, b.Hash())
+		n.out.Probe("header_of_a_dead_side_branch_sent", 1)
+		return append(append(vint(1), b.H.Bytes()...), 0), true
+	case "ask-side":
+		if len(n.side) == 0 {
+			return nil, false
+		}
+		h := n.side[r.Intn(len(n.side))]
+		var w bytes.Buffer
+		if m.Cmd == "getdata" {
+			w.Write(vint(1))
+			binary.Write(&w, binary.LittleEndian, uint32([]uint32{2, 0x40000002, 4}[r.Intn(3)]))
+			w.Write(h[:])
+			return w.Bytes(), true
+		}
+		binary.Write(&w, binary.LittleEndian, uint32(70016))
+		w.Write(vint(uint64(1 + r.Intn(2))))
+		w.Write(h[:])
+		if w.Bytes()[4] == 2 {
+			k := n.someHash(r)
+			w.Write(k[:])
+		}
+		w.Write(make([]byte, 32))
 		return w.Bytes(), true
 	case "hdr-empty":
 		return vint(0), true
